@@ -148,6 +148,35 @@ func idLocationTypeID(
 	return TypeID(b)
 }
 
+// idLocationQualifiedIdentifier returns the qualified identifier of a type ID in the format
+// prefix '.' ID '.' qualifiedIdentifier
+//
+// The ID may contain dots (e.g. a file name), so the known prefix and ID of the location are stripped,
+// instead of splitting the type ID at the dots.
+func idLocationQualifiedIdentifier(
+	prefix string,
+	id string,
+	typeID TypeID,
+) string {
+	rest := string(typeID)
+
+	for _, part := range [...]string{prefix, ".", id, "."} {
+		var ok bool
+		rest, ok = strings.CutPrefix(rest, part)
+		if !ok {
+			// The type ID does not start with the prefix and ID of the location.
+			// Fall back to splitting the type ID.
+			pieces := strings.SplitN(string(typeID), ".", 3)
+			if len(pieces) < 3 {
+				return ""
+			}
+			return pieces[2]
+		}
+	}
+
+	return rest
+}
+
 type TypeIDDecoder func(gauge MemoryGauge, typeID string) (location Location, qualifiedIdentifier string, err error)
 
 var typeIDDecoders = map[string]TypeIDDecoder{}
